@@ -23,6 +23,9 @@ CHECKS = {
  "C08": dict(level="fault_enumeration", ref="7/C08",
    text="(a) C07's corpus with the connection cut at every octet offset; (b) every server-initiated ending (221 after QUIT, fourth protocol error, over-long line, idle timeout, backend panic in NewSession/Mail/Rcpt/Data, Server.Close at a drawn instant) at five conversation positions, each followed by drawn suffixes of 0-4 commands already buffered in the same segment or sent later; (c) STARTTLS whose Logout is parked while Server.Close fires. Oracles over callback begin events keyed by session identity: exactly one Logout per created session, no callback beginning after it, no callback after the server closed its endpoint, no reply attempted after a self-initiated close, Serve returns, and no goroutine of the bubble is left one fake hour later (stack dump as witness).",
    note="Callback order is the order of a global sequence number taken on entry. Commands fully received before a peer disconnect may run; a final line cut before its CRLF is not judged."),
+ "C19": dict(level="exploration", ref="7/C19",
+   text="Systematic sweep of probe lines of length limit-2..limit+3/+50/2*limit for limits 64/200/2000 at five conversation positions (including right after a BDAT chunk), endless 70000-octet lines at four positions, all strings of length <=4 over {NUL,CR,LF,SP,A,:,<} as command lines (400 quick / 2800 thorough x 3 positions), plus seeded binary input and valid/malformed mixes around the fourth error, all under drawn segmentation (limit crossed inside one segment or across segments). Oracles: no recovered panic in ErrorLog, no process crash, no deadlock or leaked goroutine; a line > limit+1 gets exactly one 500, the connection is closed and nothing of it reaches the backend; a line <= limit is handled normally; the connection closes exactly at the fourth malformed command (reference counter); for an endless line the transport counts how many octets the server pulled: at most limit + 8 KiB.",
+   note="Length limit+1 is generated but not judged. Only unknown verbs and lines not of the shape VERB [SP args] count as malformed; argument-level errors are not used around the threshold."),
  "C01": dict(level="exploration", ref="7/C01",
    text="Seeded search plus a systematic sweep of all 5461 bodies over the byte classes {'.',CR,LF,other} up to length 6, each run under a drawn transport segmentation, server short-read plan and backend read-size plan; the octets and terminal error the real dataReader hands the backend are compared with an RFC 5321 reference unstuffer. Sampling, not proof: evidence of byte-exactness over the explored streams x schedules.",
    note="Trusts: the reference unstuffer (cross-checked against a reference stuffer), Go's testing/synctest fake clock, go1.26.8 building go-smtp the same way go1.23.5 does."),
